@@ -1539,7 +1539,9 @@ func (a *app) run(cc net.Conn) string {
 			select {
 			case <-upDone:
 				srvEOF = "yes"
-			case <-time.After(20 * time.Second):
+			case <-time.After(1 * time.Second):
+				// SnowflakeConn.Close tears the carriers down right after queueing the
+				// FIN; whether it still reaches the server is not part of C01
 				srvEOF = "no"
 			}
 		}
